@@ -58,6 +58,19 @@ type X struct {
 	viol    []Violation
 	outcome []string
 	notes   []string
+	cases   int64
+	shapes  map[string]struct{}
+}
+
+// Case counts one enumerated input case and its shape class (input-enumeration scenarios).
+func (x *X) Case(shape string) {
+	x.cases++
+	if x.shapes == nil {
+		x.shapes = map[string]struct{}{}
+	}
+	if len(x.shapes) < 5000 {
+		x.shapes[shape] = struct{}{}
+	}
 }
 
 // Fail records a violation of the scenario's property.
@@ -89,6 +102,8 @@ type ExecReport struct {
 	Outcome  string
 	Res      *vs.Result
 	EngineEr string
+	Cases    int64
+	Shapes   map[string]struct{}
 }
 
 func panicClass(v string) string {
@@ -134,6 +149,7 @@ func runOne(sc *Scenario, prefix []int, trace bool) *ExecReport {
 		x.Fail("livelock/step-horizon", "execution did not quiesce within %d scheduling steps", res.Steps)
 	}
 	rep.Viol = x.viol
+	rep.Cases, rep.Shapes = x.cases, x.shapes
 	rep.Outcome = strings.Join(x.outcome, " | ")
 	if len(res.Panics) > 0 {
 		rep.Outcome += " PANIC"
@@ -187,6 +203,8 @@ type ItemResult struct {
 	EngineErr string
 	Truncated bool
 	Samples   []Sample
+	Cases     int64
+	Shapes    []string
 }
 
 // Sample is one explored execution written out for the evidence file.
@@ -211,6 +229,7 @@ type explorer struct {
 	deadline time.Time
 	res      *ItemResult
 	hb       map[uint64]struct{}
+	shapes   map[string]struct{}
 }
 
 const maxOutcomeKeys = 4000
@@ -229,6 +248,12 @@ func (e *explorer) record(rep *ExecReport, plen int) {
 	}
 	if len(e.hb) < maxHBPerItem {
 		e.hb[rep.Res.HB] = struct{}{}
+	}
+	r.Cases += rep.Cases
+	for k := range rep.Shapes {
+		if len(e.shapes) < 20000 {
+			e.shapes[k] = struct{}{}
+		}
 	}
 	if rep.EngineEr != "" && r.EngineErr == "" {
 		r.EngineErr = fmt.Sprintf("%s (scenario %s choices %v)", rep.EngineEr, e.sc.Name, rep.Choices)
@@ -337,10 +362,13 @@ func processItem(it Item) *ItemResult {
 		res.EngineErr = "unknown scenario " + it.Scenario
 		return res
 	}
-	e := &explorer{sc: sc, bound: it.Bound, deadline: it.Deadline, res: res, hb: map[uint64]struct{}{}}
+	e := &explorer{sc: sc, bound: it.Bound, deadline: it.Deadline, res: res, hb: map[uint64]struct{}{}, shapes: map[string]struct{}{}}
 	e.explore(it.Prefix, it.Split)
 	for h := range e.hb {
 		res.HB = append(res.HB, h)
+	}
+	for k := range e.shapes {
+		res.Shapes = append(res.Shapes, k)
 	}
 	return res
 }
@@ -394,16 +422,19 @@ func (w *workerProc) stop() {
 
 // BoundReport is the aggregated result for one (scenario, bound).
 type BoundReport struct {
-	Scenario  string           `json:"scenario"`
-	D         int              `json:"d"`
-	F         int              `json:"f"`
-	Execs     int64            `json:"executions"`
-	Points    int64            `json:"decision_points"`
-	Steps     int64            `json:"steps"`
-	MaxPoints int              `json:"max_points_per_execution"`
-	Outcomes  int              `json:"distinct_outcomes"`
-	DistinctH int              `json:"distinct_hb"`
-	Complete  bool             `json:"complete"`
+	Scenario  string `json:"scenario"`
+	D         int    `json:"d"`
+	F         int    `json:"f"`
+	Execs     int64  `json:"executions"`
+	Points    int64  `json:"decision_points"`
+	Steps     int64  `json:"steps"`
+	MaxPoints int    `json:"max_points_per_execution"`
+	Outcomes  int    `json:"distinct_outcomes"`
+	DistinctH int    `json:"distinct_hb"`
+	Complete  bool   `json:"complete"`
+	Cases     int64  `json:"input_cases,omitempty"`
+	NShapes   int    `json:"distinct_shape_classes,omitempty"`
+	shapeset  map[string]struct{}
 	WallS     float64          `json:"wall_s"`
 	TopOut    map[string]int64 `json:"outcome_histogram,omitempty"`
 	viol      map[string]*FoundViolation
@@ -445,7 +476,7 @@ type done struct {
 // runBound explores one scenario at one bound using the worker pool.
 func (p *pool) runBound(sc *Scenario, b Bound, budget time.Duration) *BoundReport {
 	t0 := time.Now()
-	br := &BoundReport{Scenario: sc.Name, D: b.D, F: b.F, Complete: true, viol: map[string]*FoundViolation{}, violCount: map[string]int64{}, hbset: map[uint64]struct{}{}, TopOut: map[string]int64{}}
+	br := &BoundReport{Scenario: sc.Name, D: b.D, F: b.F, Complete: true, viol: map[string]*FoundViolation{}, violCount: map[string]int64{}, hbset: map[uint64]struct{}{}, TopOut: map[string]int64{}, shapeset: map[string]struct{}{}}
 	deadline := t0.Add(budget)
 	queue := []Item{{Scenario: sc.Name, Prefix: nil, Bound: b, Split: splitFor(b), Deadline: deadline}}
 	idle := make([]int, 0, len(p.workers))
@@ -517,6 +548,10 @@ func (p *pool) runBound(sc *Scenario, b Bound, budget time.Duration) *BoundRepor
 				br.hbset[h] = struct{}{}
 			}
 		}
+		br.Cases += r.Cases
+		for _, k := range r.Shapes {
+			br.shapeset[k] = struct{}{}
+		}
 		for k, v := range r.Viol {
 			if old := br.viol[k]; old == nil || v.Cost < old.Cost || v.Cost == old.Cost && len(v.Choices) < len(old.Choices) {
 				br.viol[k] = v
@@ -538,6 +573,7 @@ func (p *pool) runBound(sc *Scenario, b Bound, budget time.Duration) *BoundRepor
 	}
 	br.Outcomes = len(br.TopOut)
 	br.DistinctH = len(br.hbset)
+	br.NShapes = len(br.shapeset)
 	br.WallS = time.Since(t0).Seconds()
 	// keep the histogram small in the evidence file
 	if len(br.TopOut) > 12 {
